@@ -264,9 +264,12 @@ func (i *interpreter) fileInfo(name value, n *mnode) iface {
 	st[fieldIndex(ST, "Dev")] = uint64(1)
 	st[fieldIndex(ST, "Nlink")] = uint64(n.nlink)
 	st[fieldIndex(ST, "Mode")] = stMode(n)
-	st[fieldIndex(ST, "Uid")] = toU32(n.uid)
-	st[fieldIndex(ST, "Gid")] = toU32(n.gid)
+	st[fieldIndex(ST, "Uid")] = i.u32(n.uid)
+	st[fieldIndex(ST, "Gid")] = i.u32(n.gid)
 	st[fieldIndex(ST, "Rdev")] = n.rdev
+	if n.rdevSym != nil {
+		st[fieldIndex(ST, "Rdev")] = lower(i.term(n.rdevSym), types.Uint64)
+	}
 	st[fieldIndex(ST, "Size")] = size
 	st[fieldIndex(ST, "Blksize")] = n.blksize
 	var v value = s
@@ -279,10 +282,16 @@ func toU32(v value) value {
 		return uint32(x)
 	case uint32:
 		return x
-	case sym:
-		return v // width mismatch is tolerated only for opaque uses
 	}
 	return uint32(0)
+}
+
+// u32 truncates an owner id (int) to the kernel's 32-bit uid_t/gid_t.
+func (i *interpreter) u32(v value) value {
+	if s, ok := v.(sym); ok {
+		return lower(i.ps.ctx.Extract(s.t, 31, 0), types.Uint32)
+	}
+	return toU32(v)
 }
 
 // ---------------------------------------------------------------- path resolution
